@@ -94,6 +94,7 @@ def seeds_misc(rng):
     out.append(("tera", "terrain", assets.build_tera([(1, 2), (-3, 4), (0, 0)]), []))
     out.append(("lgb", "empty-lgb", assets.build_empty_lgb(0x3142474C, 0x3150474C, 261, b"PlanLive"), []))
     out.append(("lgb", "sample-lgb", res("empty_planlive.lgb"), []))
+    out.append(("lgb", "layers-and-objects", assets.build_lgb_layers(rng, 3, (4, 2, 1))[0], []))
     # staining template: header (4 pad, count, keys, offsets) + entries (5 u16 ends)
     n = 3
     stm = b"\0\0\0\0" + struct.pack("<i", n) + struct.pack("<3H", 1, 2, 3) + struct.pack("<3H", 0, 5, 10)
